@@ -149,7 +149,11 @@ func record(c *fw.Ctx, t *task) {
 func run(c *fw.Ctx) {
 	r := c.Rng
 	// (2) testdata
-	cases, notes := testdataCases("/repo")
+	repoRoot := os.Getenv("VERIF_REPO") // the tree under test (bin/drill.sh points it at a scratch worktree)
+	if repoRoot == "" {
+		repoRoot = "/repo"
+	}
+	cases, notes := testdataCases(repoRoot)
 	for _, n := range notes {
 		c.Note(n)
 	}
